@@ -271,6 +271,19 @@ var u53 = new(big.Rat).SetFrac(big.NewInt(1), new(big.Int).Lsh(big.NewInt(1), 53
 
 func rabs(r *big.Rat) *big.Rat { return new(big.Rat).Abs(r) }
 
+// withinTwice checks what f returns, overwrites it (the coordinate returned belongs to
+// the caller) and checks what f returns when asked again.
+func withinTwice(what string, f func() geom.Coord, wx, wy *big.Rat, tx, ty *big.Rat, stride int) error {
+	got := f()
+	if err := within(what, got, wx, wy, tx, ty, stride); err != nil {
+		return err
+	}
+	for i := range got {
+		got[i] = math.NaN()
+	}
+	return within(what+", asked again after the caller overwrote the coordinate returned before,", f(), wx, wy, tx, ty, stride)
+}
+
 func within(what string, got geom.Coord, wx, wy *big.Rat, tx, ty *big.Rat, stride int) error {
 	if len(got) != stride && !(stride > 2 && len(got) == 2) {
 		return fmt.Errorf("%s: centroid has %d ordinates (layout stride %d)", what, len(got), stride)
@@ -325,10 +338,10 @@ func propPoints(c Case, l geom.Layout) error {
 	tx, ty := exact.Mul(k, exact.Quo(ax, nn)), exact.Mul(k, exact.Quo(ay, nn))
 	flat := flatOf(ps, l)
 	mp := geom.NewMultiPointFlat(l, flat).SetSRID(sridOf(len(flat)))
-	if err := within("MultiPointCentroid", xy.MultiPointCentroid(mp), wx, wy, tx, ty, 2); err != nil {
+	if err := withinTwice("MultiPointCentroid", func() geom.Coord { return xy.MultiPointCentroid(mp) }, wx, wy, tx, ty, 2); err != nil {
 		return err
 	}
-	if err := within("PointsCentroidFlat", xy.PointsCentroidFlat(l, flat), wx, wy, tx, ty, 2); err != nil {
+	if err := withinTwice("PointsCentroidFlat", func() geom.Coord { return xy.PointsCentroidFlat(l, flat) }, wx, wy, tx, ty, 2); err != nil {
 		return err
 	}
 	// the same points with EMPTY members in between: members without a position do
@@ -345,7 +358,7 @@ func propPoints(c Case, l geom.Layout) error {
 	if mpe.NumPoints() <= len(ps) {
 		return fmt.Errorf("harness: MultiPoint with EMPTY members has %d members for %d points", mpe.NumPoints(), len(ps))
 	}
-	if err := within("MultiPointCentroid (with EMPTY members)", xy.MultiPointCentroid(mpe), wx, wy, tx, ty, 2); err != nil {
+	if err := withinTwice("MultiPointCentroid (with EMPTY members)", func() geom.Coord { return xy.MultiPointCentroid(mpe) }, wx, wy, tx, ty, 2); err != nil {
 		return err
 	}
 	if gote, err := xy.Centroid(mpe); err != nil {
@@ -357,7 +370,7 @@ func propPoints(c Case, l geom.Layout) error {
 	for i := range ps {
 		pts = append(pts, geom.NewPointFlat(l, flat[i*l.Stride():(i+1)*l.Stride()]))
 	}
-	if err := within("PointsCentroid", xy.PointsCentroid(pts[0], pts[1:]...), wx, wy, tx, ty, 2); err != nil {
+	if err := withinTwice("PointsCentroid", func() geom.Coord { return xy.PointsCentroid(pts[0], pts[1:]...) }, wx, wy, tx, ty, 2); err != nil {
 		return err
 	}
 	// the calculator used directly, points added one by one (as points and as coordinates)
@@ -369,7 +382,7 @@ func propPoints(c Case, l geom.Layout) error {
 			pc.AddCoord(geom.Coord(q.FlatCoords()))
 		}
 	}
-	if err := within("PointCentroidCalculator", pc.GetCentroid(), wx, wy, tx, ty, 2); err != nil {
+	if err := withinTwice("PointCentroidCalculator", func() geom.Coord { return pc.GetCentroid() }, wx, wy, tx, ty, 2); err != nil {
 		return err
 	}
 	got, err := xy.Centroid(mp)
@@ -440,14 +453,14 @@ func propLines(c Case, l geom.Layout) error {
 		ends = append(ends, len(flat))
 	}
 	s := l.Stride()
-	if err := within("LinesCentroid", xy.LinesCentroid(lss[0], lss[1:]...), wx, wy, tx, ty, s); err != nil {
+	if err := withinTwice("LinesCentroid", func() geom.Coord { return xy.LinesCentroid(lss[0], lss[1:]...) }, wx, wy, tx, ty, s); err != nil {
 		return err
 	}
-	if err := within("LinearRingsCentroid", xy.LinearRingsCentroid(lrs[0], lrs[1:]...), wx, wy, tx, ty, s); err != nil {
+	if err := withinTwice("LinearRingsCentroid", func() geom.Coord { return xy.LinearRingsCentroid(lrs[0], lrs[1:]...) }, wx, wy, tx, ty, s); err != nil {
 		return err
 	}
 	mls := geom.NewMultiLineStringFlat(l, flat, ends).SetSRID(sridOf(len(flat)))
-	if err := within("MultiLineCentroid", xy.MultiLineCentroid(mls), wx, wy, tx, ty, s); err != nil {
+	if err := withinTwice("MultiLineCentroid", func() geom.Coord { return xy.MultiLineCentroid(mls) }, wx, wy, tx, ty, s); err != nil {
 		return err
 	}
 	got, err := xy.Centroid(mls)
@@ -564,10 +577,10 @@ func propPolygons(c Case, l geom.Layout, polys [][][]pt, what string) error {
 		tx = exact.Add(exact.Mul(k, exact.Quo(sumx, den)), exact.Mul(k4, rabs(wx)))
 		ty = exact.Add(exact.Mul(k, exact.Quo(sumy, den)), exact.Mul(k4, rabs(wy)))
 	}
-	if err := within(what+"PolygonsCentroid", xy.PolygonsCentroid(gps[0], gps[1:]...), wx, wy, tx, ty, s); err != nil {
+	if err := withinTwice(what+"PolygonsCentroid", func() geom.Coord { return xy.PolygonsCentroid(gps[0], gps[1:]...) }, wx, wy, tx, ty, s); err != nil {
 		return err
 	}
-	if err := within(what+"MultiPolygonCentroid", xy.MultiPolygonCentroid(mp), wx, wy, tx, ty, s); err != nil {
+	if err := withinTwice(what+"MultiPolygonCentroid", func() geom.Coord { return xy.MultiPolygonCentroid(mp) }, wx, wy, tx, ty, s); err != nil {
 		return err
 	}
 	// the calculator used directly: polygons added one by one, the centroid asked for
@@ -579,7 +592,7 @@ func propPolygons(c Case, l geom.Layout, polys [][][]pt, what string) error {
 			_ = ac.GetCentroid()
 		}
 	}
-	if err := within(what+"AreaCentroidCalculator", ac.GetCentroid(), wx, wy, tx, ty, s); err != nil {
+	if err := withinTwice(what+"AreaCentroidCalculator", func() geom.Coord { return ac.GetCentroid() }, wx, wy, tx, ty, s); err != nil {
 		return err
 	}
 	got, err := xy.Centroid(mp)
